@@ -151,3 +151,92 @@ def seeker_reach(s0: int, z0: int, t1: int, d2: int, prog: int) -> bool:
     post: _
     """
     return _seeker('reach', s0, z0, t1, d2, prog)
+
+
+def _seeker2(what, s0, z0, t, prog, skip):
+    """obj0 is LOOSE when the reader starts; another client packs everything compressed and cleans at observation t of
+    the reader (between its index lookup and its opening of the loose file: the reader's second-chance look-up then
+    serves the object from the pack); the stream must still behave like an in-memory file, seeks from the end included."""
+    w = make_world(10**9)
+    try:
+        w.set_zlen(0, s0, z0)
+        w.put_loose(0, s0)
+        k0 = w.key(0, s0)
+        other = w.new_handle()
+
+        def pack_and_clean():
+            from disk_objectstore.utils import CompressMode
+
+            other.pack_all_loose(compress=CompressMode.YES)
+            other.clean_storage()
+
+        w.at(t, 'call', pack_and_clean)
+        want = w.content(0, s0)
+        with w.c.get_objects_stream_and_meta([k0], skip_if_missing=skip) as triplets:
+            n = 0
+            ok = True
+            for key, s, meta in triplets:
+                n += 1
+                if key != k0 or s is None or meta.size != s0:
+                    return False
+                if prog == 0:
+                    end = s.seek(0, 2)
+                    s.seek(0)
+                    ok = end == s0 and s.read() == want
+                elif prog == 1:
+                    first = s.read(1)
+                    s.seek(-1, 1)
+                    ok = first == want[:1] and s.read() == want
+                else:
+                    s.seek(-1, 2)
+                    ok = s.read() == want[s0 - 1 :] and s.tell() == s0
+        other.close()
+        if what == 'reach':
+            return not (len(w.image().rows()) == 1 and ok)
+        return ok and n == 1
+    finally:
+        w.cleanup()
+
+
+def seeker2(s0: int, z0: int, t: int, prog: int, skip: bool) -> bool:
+    """
+    pre: 1 <= s0 <= 70000 and 2 <= z0 <= 70000 and 1 <= t <= 30 and 0 <= prog <= 2
+    post: _
+    """
+    return _seeker2('check', s0, z0, t, prog, skip)
+
+
+def seeker2_reach(s0: int, z0: int, t: int, prog: int, skip: bool) -> bool:
+    """
+    Reachability twin: must be REFUTED (the pack + clean falls between the index look-up and the opening of the loose file).
+    pre: 1 <= s0 <= 70000 and 2 <= z0 <= 70000 and 1 <= t <= 30 and 0 <= prog <= 2
+    post: _
+    """
+    return _seeker2('reach', s0, z0, t, prog, skip)
+
+
+from harness.h_crash import _gpacker  # noqa: E402
+
+
+def gpacker_pack(h0: int, sp: int, s0: int, s1: int, target: int, clean: bool) -> bool:
+    """
+    pre: 0 <= h0 <= 1 and 1 <= sp <= 100 and 1 <= s0 <= 70000 and 1 <= s1 <= 100 and 1 <= target <= 70200
+    post: _
+    """
+    return _gpacker('pack_clean' if clean else 'pack', h0, sp, s0, s1, target)
+
+
+def gpacker_nofsync(h0: int, sp: int, s0: int, s1: int, target: int) -> bool:
+    """
+    pre: 0 <= h0 <= 1 and 1 <= sp <= 100 and 1 <= s0 <= 70000 and 1 <= s1 <= 100 and 1 <= target <= 70200
+    post: _
+    """
+    return _gpacker('pack_nofsync', h0, sp, s0, s1, target)
+
+
+def gpacker_direct(h0: int, sp: int, s0: int, s1: int, target: int, nh: bool) -> bool:
+    """
+    pre: 0 <= h0 <= 1 and 1 <= sp <= 100 and 1 <= s0 <= 70000 and 1 <= s1 <= 100 and 1 <= target <= 70200
+    post: _
+    """
+    return _gpacker('direct_noholes' if nh else 'direct', h0, sp, s0, s1, target)
